@@ -8,9 +8,10 @@ package db
 //@ prelude db.smt2 time.smt2 hash.smt2
 
 // needsUpdate equals the decision formula of the statement (C11) for every strategy byte and every combination
+// (the stored-hash comparison of that formula is C13's "UpdateChanged comparison": it is reached under every strategy)
 // of facts reported by the backend; "missing" counts a certificate request as key material.
 //@ func needsUpdate returns (res)
-//@   props C11 C10
+//@   props C11 C10 C13
 //@   let S = DbState(backend)
 //@   let CFG = (if cfg != nil then cfg else typed(dbCfg(S, alias), "*github.com/wokdav/gopki/generator/config.CertificateContent"))
 //@   let META = typed(dbMeta(S, alias), "*github.com/wokdav/gopki/generator/db.Metadata")
@@ -20,7 +21,7 @@ package db
 //@   requires cfg != nil ==> dbCfg(S, alias) != 0
 //@   let NOERR = dbCfgErr(S, alias) == #nilAny && dbCfgErr(S, CFG.Issuer) == #nilAny && dbMetaErr(S, alias) == #nilAny && dbMetaErr(S, CFG.Issuer) == #nilAny && dbArtErr(S, alias) == #nilAny
 //@   ensures @C11,C10 cfg == nil && (dbCfgErr(S, alias) != #nilAny || dbCfg(S, alias) == 0) ==> !res
-//@   ensures @C11,C10 !(cfg == nil && dbCfg(S, alias) == 0) && NOERR ==> res == ((strat & 16) != 0 || (strat != 0 && dbCfg(S, CFG.Issuer) != 0 && after(IMETA.LastBuild, META.LastBuild)) || ((strat & 4) != 0 && after(META.LastConfigUpdate, META.LastBuild)) || ((strat & 2) != 0 && ART.Certificate != nil && after(nowAt(1), ART.Certificate.TBSCertificate.Validity.NotAfter) && after(CFG.Validity.Until, nowAt(2))) || ((strat & 1) != 0 && (ART.Certificate == nil || (ART.PrivateKey == nil && ART.Request == nil))) || ((strat & 8) != 0 && META.LastConfigHash != nil && bytes(META.LastConfigHash) != HASH))
+//@   ensures @C11,C10,C13 !(cfg == nil && dbCfg(S, alias) == 0) && NOERR ==> res == ((strat & 16) != 0 || (strat != 0 && dbCfg(S, CFG.Issuer) != 0 && after(IMETA.LastBuild, META.LastBuild)) || ((strat & 4) != 0 && after(META.LastConfigUpdate, META.LastBuild)) || ((strat & 2) != 0 && ART.Certificate != nil && after(nowAt(1), ART.Certificate.TBSCertificate.Validity.NotAfter) && after(CFG.Validity.Until, nowAt(2))) || ((strat & 1) != 0 && (ART.Certificate == nil || (ART.PrivateKey == nil && ART.Request == nil))) || ((strat & 8) != 0 && META.LastConfigHash != nil && bytes(META.LastConfigHash) != HASH))
 //@   watch dbCfgErr(S, alias) != #nilAny
 //@   watch dbCfg(S, CFG.Issuer) != 0
 //@   watch dbArtErr(S, alias) != #nilAny
